@@ -454,3 +454,29 @@ Fixpoint no_nl (s : string) : bool :=
   | EmptyString => true
   | String a r => negb (Ascii.eqb a nl) && no_nl r
   end.
+
+(* ------------------------------------------------------------------------------------------ *)
+(* Part I: per-request state of the web handlers (internal/driver/webui.go makeReport, errorCatcher):
+   the messages a page shows in its errors box are those printed while the report of THAT request was
+   generated -- a function of the request alone.  For the sample filters (driver_focus.go:45-60) a filter
+   whose expression matches nothing reports "<Name> expression matched no samples", in this order. *)
+Definition filter_names : list string :=
+  ["Focus"; "Ignore"; "Hide"; "Show"; "ShowFrom"; "TagFocus"; "TagIgnore"; "TagShow"].
+Fixpoint web_errors_from (bit : Z) (names : list string) (mask : Z) : list string :=
+  match names with
+  | [] => []
+  | n :: r => (if Z.testbit mask bit then [(n ++ " expression matched no samples")%string] else [])
+              ++ web_errors_from (bit + 1) r mask
+  end.
+Definition web_errors (mask : Z) : list string := web_errors_from 0 filter_names mask.
+
+(* a SHARED catcher, correctly locked: printing and taking are separate critical sections on the list *)
+Definition cat_print (m : string) : list (instr (list string) (list string)) :=
+  [fun (s l : list string) => ((s ++ [m])%list, l)].
+Definition cat_take : list (instr (list string) (list string)) := [fun (s _ : list string) => (@nil string, s)].
+Definition cat_threads (i : nat) : ath (list string) (list string) :=
+  match i with
+  | O => {| a_loc := []; a_todo := [cat_print "Focus expression matched no samples"; cat_take] |}
+  | S O => {| a_loc := []; a_todo := [cat_take] |}
+  | _ => {| a_loc := []; a_todo := [] |}
+  end.
